@@ -524,7 +524,8 @@ Proof.
   repeat rewrite len_app in Hl.
   pose proof (len_nonneg (enc_u32 ty)). pose proof (len_nonneg (enc_u64 (write_chunk_file_length (len p)))).
   pose proof (len_nonneg (repeat 0 (Z.to_nat (write_chunk_padding_bytes (len p))))).
-  pose proof (len_nonneg [0; write_chunk_padding_bytes (len p); 0; ChunkFlags_Mandatory]). lia.
+  pose proof (len_nonneg [0; write_chunk_padding_bytes (len p); 0; ChunkFlags_Mandatory]).
+  unfold byte in *. lia.
 Qed.
 
 Definition small (b : list byte) : Prop := bytes_ok b /\ len b < 4611686018427387904.
